@@ -588,14 +588,14 @@ DEPENDS = {
 EXPECTED = {'isR': {'hard': {'defaults': {'tol': 100}, 'formula': ['and', ['Lt', 'expr', 'tol*_eps'], ['Gt', 'expr', 'const:0']], 'callees': []},
          'fine': ['and', ['src', 'np.linalg.norm(R @ R.T - np.eye(R.shape[0])) < tol * _eps'], ['src', 'np.linalg.det(R) > 0']],
          'layout': ['return']},
- 'isskew': {'hard': {'defaults': {'tol': 10}, 'formula': ['Lt', 'expr', 'tol*_eps'], 'callees': []},
+ 'isskew': {'hard': {'defaults': {'tol': 10}, 'formula': ['Lt', 'expr', 'tol*_eps'], 'callees': [['base.vectors._asdouble', [], []]]},
             'fine': ['src', 'np.linalg.norm(S + S.T) < tol * _eps'],
-            'layout': ['return']},
+            'layout': ['Assign', 'return']},
  'isskewa': {'hard': {'defaults': {'tol': 10},
                       'formula': ['and', ['Lt', 'expr', 'tol*_eps'], ['call', 'np.all', [], ['Eq', 'expr', 'const:0']]],
-                      'callees': []},
+                      'callees': [['base.vectors._asdouble', [], []]]},
              'fine': ['and', ['src', 'np.linalg.norm(S[0:-1, 0:-1] + S[0:-1, 0:-1].T) < tol * _eps'], ['src', 'np.all(S[-1, :] == 0)']],
-             'layout': ['return']},
+             'layout': ['Assign', 'return']},
  'iseye': {'hard': {'defaults': {'tol': 10},
                     'formula': ['and', ['not', ['NotEq', 'expr', 'const:2']], ['not', ['NotEq', 'expr', 'expr']], ['Lt', 'expr', 'tol*_eps']],
                     'callees': []},
@@ -633,11 +633,11 @@ EXPECTED = {'isR': {'hard': {'defaults': {'tol': 100}, 'formula': ['and', ['Lt',
             'fine': ['and', ['src', 'isinstance(R, np.ndarray)'], ['src', 'R.shape == (2, 2)'],
                      ['or', ['not', ['src', 'check']], ['src', 'base.isR(R)']]],
             'layout': ['return']},
- 'isunitvec': {'hard': {'defaults': {'tol': 10}, 'formula': ['Lt', 'expr', 'tol*_eps'], 'callees': []},
-               'fine': ['src', 'abs(np.linalg.norm(v) - 1) < tol * _eps'],
+ 'isunitvec': {'hard': {'defaults': {'tol': 10}, 'formula': ['Lt', 'expr', 'tol*_eps'], 'callees': [['_asdouble', [], []]]},
+               'fine': ['src', 'abs(np.linalg.norm(_asdouble(v)) - 1) < tol * _eps'],
                'layout': ['return']},
- 'iszerovec': {'hard': {'defaults': {'tol': 10}, 'formula': ['Lt', 'expr', 'tol*_eps'], 'callees': []},
-               'fine': ['src', 'np.linalg.norm(v) < tol * _eps'],
+ 'iszerovec': {'hard': {'defaults': {'tol': 10}, 'formula': ['Lt', 'expr', 'tol*_eps'], 'callees': [['_asdouble', [], []]]},
+               'fine': ['src', 'np.linalg.norm(_asdouble(v)) < tol * _eps'],
                'layout': ['return']},
  'iszero': {'hard': {'defaults': {'tol': 10}, 'formula': ['Lt', 'expr', 'tol*_eps'], 'callees': []},
             'fine': ['src', 'abs(v) < tol * _eps'],
@@ -1265,9 +1265,8 @@ def oracle_pred(ctx):
 # oracle, part 1b: membership is a property of the VALUES, not of the dtype they are stored in
 # =====================================================================================================
 DTYPES = [np.float32, np.float16, np.int64, np.longdouble, object]
-# numpy evaluates norm / + / == of a float16 array in half precision: defects below the float16 resolution (and squares that
-# underflow) are invisible to the predicates although the stored values are exactly representable in float64 -- one root cause, one key
-F16KEY = 'oracle:dtype:float16:half-precision-arithmetic-accepts-nonmember'
+# (numpy evaluates norm / + of a float16 array in half precision; since fix b29003f the vector / skew predicates promote reduced-precision
+# float arrays to float64 first, so float16 cells are held to the same per-predicate keys as every other dtype)
 STRICT = (np.float32, np.int64)      # dtypes every predicate / constructor handles: exact members must be ACCEPTED in these
 
 
@@ -1396,7 +1395,7 @@ def oracle_dtypes(ctx):
                         except Exception as ex:  # noqa
                             got = type(ex).__name__
                         if not want_member and got is True:
-                            ctx.fail(F16KEY if (dt is np.float16 and d < 2e-3) else f'oracle:dtype:reject:{pname}', f"{pname} accepts a {dn} array whose value is {d:g} from the group / the definition (band 1e-6): "
+                            ctx.fail(f'oracle:dtype:reject:{pname}', f"{pname} accepts a {dn} array whose value is {d:g} from the group / the definition (band 1e-6): "
                                      "membership must not depend on the dtype", dict(rep_, predicate=pname))
                         if want_member and dt in STRICT and got is not True:
                             ctx.fail(f'oracle:dtype:accept:{pname}', f"{pname} does not accept an exact member stored as {dn}: {got}", dict(rep_, predicate=pname))
@@ -1411,7 +1410,7 @@ def oracle_dtypes(ctx):
                             except Exception as ex:  # noqa
                                 held = type(ex).__name__
                             if not want_member and not isinstance(held, str):
-                                ctx.fail(F16KEY if (dt is np.float16 and d < 2e-3) else f'oracle:dtype:ctor:{cname}:accepts-invalid', f"{cname}({form}) accepts a {dn} array whose value is {d:g} from the group; it holds {held}",
+                                ctx.fail(f'oracle:dtype:ctor:{cname}:accepts-invalid', f"{cname}({form}) accepts a {dn} array whose value is {d:g} from the group; it holds {held}",
                                          dict(rep_, constructor=cname, form=form))
                             if want_member and dt in STRICT and (isinstance(held, str) or any(h != 'member' for h in held)):
                                 ctx.fail(f'oracle:dtype:ctor:{cname}:rejects-member', f"{cname}({form}) of an exact member stored as {dn}: {held}", dict(rep_, constructor=cname, form=form))
